@@ -8,7 +8,7 @@ use serde_json::json;
 
 use crate::props_seq::workers;
 use crate::report::{Finding, Report};
-use crate::schedx::{self, Prog, TOp};
+use crate::schedx::{self, Prog, TOp, SYNC_SIZE};
 use crate::world::Cfg;
 
 fn kab() -> Vec<Vec<u8>> {
@@ -60,6 +60,10 @@ pub fn c05_sharp() -> Vec<Arc<Prog>> {
         // group commit: leader + two followers
         prog("put||put||put", vec![], vec![vec![Put(0, 1, 8)], vec![Put(0, 2, 8)], vec![Put(1, 3, 8)]]),
         prog("get||put||put", vec![Put(0, 1, 8)], vec![vec![Get(0)], vec![Put(0, 2, 8)], vec![Put(1, 3, 8)]]),
+        // synchronous and plain writers queued behind one leader: the synchronous one is left out
+        // of a plain leader's group and has to be woken as the next leader
+        prog("put||put-sync||put", vec![], vec![vec![Put(0, 1, 8)], vec![Put(1, 2, SYNC_SIZE)], vec![Put(0, 3, 8)]]),
+        prog("put-sync||put||put-sync+get", vec![Put(0, 1, 8)], vec![vec![Put(0, 2, SYNC_SIZE)], vec![Put(1, 3, 8)], vec![Put(1, 4, SYNC_SIZE), Get(0)]]),
         // writers vs manual compaction
         prog("put||put||compact", vec![Put(0, 1, 8)], vec![vec![Put(0, 2, 8)], vec![Put(1, 3, 8)], vec![Compact(None, None)]]),
         // reader vs delete + flush
@@ -457,6 +461,7 @@ pub fn c09_programs() -> Vec<Arc<Prog>> {
     };
     vec![
         p("w||w||compact", vec![Put(0, 1, 8)], vec![vec![Put(0, 2, 8), Put(1, 3, 8)], vec![Put(1, 4, 8), Put(0, 5, 8)], vec![Compact(None, None)]]),
+        p("w||w-sync||w", vec![], vec![vec![Put(0, 1, 8)], vec![Put(1, 2, SYNC_SIZE)], vec![Put(0, 3, 8)]]),
         p("w3||w3", vec![], vec![vec![Put(0, 1, 8), Put(0, 2, 8), Put(0, 3, 8)], vec![Put(1, 4, 8), Put(1, 5, 8), Put(1, 6, 8)]]),
         p("flush||flush||w", vec![Put(0, 1, 8)], vec![vec![Flush], vec![Flush], vec![Put(1, 2, 8)]]),
         p("compact||compact", vec![Put(0, 1, 8), Flush, Put(1, 2, 8)], vec![vec![Compact(None, None)], vec![Compact(Some(0), Some(1))]]),
